@@ -165,3 +165,40 @@ Theorem C17_enumeration_exact : forall cfg q v r, wf_json v = true ->
   (In r (nd_results (reg cfg) (rx cfg) q v) <-> nd_permitted (reg cfg) (rx cfg) q v r).
 Proof. exact nd_results_spec. Qed.
 Print Assumptions C17_enumeration_exact.
+
+(* ---- the queries nested in filter expressions ----
+   FilterQuery.evaluate runs a nested query through the same selectors and segments, so in nondeterministic mode its wildcard and filter
+   selectors shuffle and its descendant segments traverse at random as well.  Model/NdEval2.v m_find_nd2 models those episodes too (to any
+   depth of nesting), with their scripts in a second supply.  They make no difference: for every well-typed query and every value within the
+   depth limit, whatever the scripts of either supply, m_find_nd2 returns a nodelist and it is the one m_find_nd returns for the first supply
+   alone (Proofs/NdNested.v: a nested query returns a permutation of its deterministic nodelist - itself by induction, nested filters
+   selecting the same members - and a filter expression uses a nodelist only through its emptiness, its length, or its only node when it has
+   exactly one: test expressions, count(), value(), singular queries in comparisons and ValueType arguments; any type-consistent registry).
+   So C17_query_valid / C17_query_exhaustive hold of the mode with every random choice the evaluator makes. *)
+From JP Require Import Model.NdEval2 Proofs.NdNested.
+Theorem C17_nested_independent : forall cfg, reg_ok (reg cfg) = true -> (1 <= max_depth cfg)%nat ->
+  forall q v sup nsup, wt_query (reg cfg) q = true -> good cfg v ->
+  exists r, m_find_nd cfg sup q v = Ok r /\ m_find_nd2 cfg sup nsup q v = Ok r.
+Proof. exact nested_independent. Qed.
+Print Assumptions C17_nested_independent.
+Theorem C17_full_valid : forall cfg, reg_ok (reg cfg) = true -> (1 <= max_depth cfg)%nat ->
+  forall q v sup nsup r, wt_query (reg cfg) q = true -> good cfg v ->
+  m_find_nd2 cfg sup nsup q v = Ok r -> nd_permitted (reg cfg) (rx cfg) q v r.
+Proof. exact nd2_valid. Qed.
+Print Assumptions C17_full_valid.
+Theorem C17_full_exhaustive : forall cfg, reg_ok (reg cfg) = true -> (1 <= max_depth cfg)%nat ->
+  forall q v r, wt_query (reg cfg) q = true -> good cfg v -> nd_permitted (reg cfg) (rx cfg) q v r ->
+  exists sup, forall nsup, m_find_nd2 cfg sup nsup q v = Ok r.
+Proof. exact nd2_exhaustive. Qed.
+Print Assumptions C17_full_exhaustive.
+(* not vacuous, and the nested episodes are really there: $[?count(@[*]) > 1] on {"a": {"x": 1, "y": 2}, "b": {"z": 3}} - the filter selector
+   shuffles a, b (first supply), count(@[*]) shuffles x, y when it looks at a and z when it looks at b (second supply: both scripts used up) *)
+Example C17_nested_nonvacuous :
+  let cfg := {| min_idx := - (2 ^ 53) + 1; max_idx := 2 ^ 53 - 1; max_depth := 100; reg := builtin_registry; rx := fun _ _ _ => false |} in
+  let q := [Child [SFilter (ECmp OGt (ECall [99;111;117;110;116]%N [ERel [Child [SWild]]]) (ELit (JNum (NInt 1))))]] in
+  let va := JObj [(nm 120, JNum (NInt 1)); (nm 121, JNum (NInt 2))] in
+  let v := JObj [(nm 97, va); (nm 98, JObj [(nm 122, JNum (NInt 3))])] in
+  wt_query (reg cfg) q = true /\
+  nd2_segs cfg v ([[1%Z]], [[1%Z]; [0%Z]]) q [([], v)] = Ok ([([KName (nm 97)], va)], ([], [])) /\
+  m_find_nd2 cfg [[1%Z]] [[0%Z]; [5%Z]] q v = m_find_nd2 cfg [[1%Z]] [] q v.
+Proof. vm_compute. repeat split. Qed.
